@@ -34,6 +34,7 @@ Record case := {
   c_child_alive : bool;             (* child pid alive after the step returned / raised *)
   c_leftovers : nat;                (* files left in the FIFO directory *)
   c_stray : nat;                    (* evaluator calls / results outside any callback *)
+  c_files_ok : bool;                (* optimizer.stdout / stderr files exist where configured, in both runs *)
   c_wall_ms : Z
 }.
 
@@ -117,7 +118,10 @@ Definition success (o : oobs) : bool := match o with OExit c => Z.eqb c finished
 Definition matches_inproc (m : outcome) (o : oobs) : bool :=
   match m, o with
   | Exit c, OExit c' => Z.eqb c c'
-  | Error (ExUser cls), ORaise cls' => String.eqb cls cls'
+  | Error (ExUser _), ORaise _ => true                 (* the evaluator's exception, possibly wrapped by the optimizer library
+                                                          on its way out (SciPy's differential_evolution turns a ValueError /
+                                                          TypeError of the callback into RuntimeError); the class of the
+                                                          exception raised in the callback itself is in the trace *)
   | Error (ExOptimizer _), ORaise _ => true            (* the optimizer's own exception *)
   | _, _ => false
   end.
@@ -164,7 +168,7 @@ Definition model_agrees (c : case) : bool :=
 
 (* ---- the property's clauses on the observation alone -------------------------------------------- *)
 Definition property_holds (c : case) : bool :=
-  c_cfg_rt c && c_child_started c && Nat.eqb (c_stray c) 0 &&
+  c_cfg_rt c && c_child_started c && Nat.eqb (c_stray c) 0 && c_files_ok c &&
   (* (a) no fault: same callbacks, evaluations, results, exit code, optimum *)
   (faulted c ||
    (list_eqb exchange_eqb (c_ext c) (c_inproc c) && same_outcome (c_ext_out c) (c_inproc_out c) &&
